@@ -35,6 +35,12 @@ CheckKF(h, cond, p, why, name, sig) ==
        THEN [h EXCEPT !.kf = Append(@, [p |-> p, l |-> h.l, kf |-> name, why |-> why])]
        ELSE Viol(h, p, why)
 
+AllProps == {"C01", "C02", "C03", "C04", "C05", "C06", "C07", "C08", "C09", "C10", "C11", "C12",
+             "C13", "C14", "C15", "C16", "C17", "C18", "C19", "C20"}
+\* count one non-trivial evaluation of property p's monitor (vacuity bookkeeping)
+Tick(h, p) == [h EXCEPT !.n[p] = @ + 1]
+Tick2(h, p, q) == Tick(Tick(h, p), q)
+
 Max(a, b) == IF a > b THEN a ELSE b
 Min(a, b) == IF a < b THEN a ELSE b
 
@@ -81,11 +87,12 @@ Fresh(l, cfg, prev) ==
    cid |-> cfg.client_id, kaAdv |-> cfg.ka, K |-> 0,
    reqs |-> << >>, hmap |-> << >>, recn |-> 0,
    owed |-> << >>, aw |-> 0, sids |-> {},
-   unres |-> {}, pe |-> "", dcan |-> FALSE, taint |-> 0,
+   unres |-> {}, pe |-> "", dcan |-> FALSE, taint |-> 0, connectLen |-> 0, d9b |-> FALSE,
    lastDone |-> 0, pingAt |-> -1, pingOut |-> FALSE, overslept |-> TRUE, wake |-> -1,
    dead |-> FALSE, ioDead |-> << 0, 0, 0 >>, lastio |-> << 0, 0, 0 >>,
    sum |-> EmptySum, prev |-> prev, mark |-> 0,
    lastobs |-> [live |-> FALSE, q |-> TRUE, h |-> << >>],
+   n |-> [p \in AllProps |-> 0], runs |-> 0,
    v |-> << >>, kf |-> << >>]
 
 ---------------------------------------------------------------------------
@@ -166,7 +173,7 @@ Truth(h, k) ==
 C10Gap(h) ==
   LET gap == h.now - h.lastDone
       h1 == IF h.up /\ h.K > 0 /\ ~h.overslept /\ h.op.name \in {"poll", "recv"}
-            THEN CheckKF(h, gap <= h.K, "C10",
+            THEN CheckKF(Tick(h, "C10"), gap <= h.K, "C10",
                          "time between consecutive client packets exceeds the keep-alive",
                          "D10", h.K < 5000 /\ h.pingAt >= 0)
             ELSE h
@@ -177,7 +184,7 @@ C10Yield(h, wake) ==
   IF ~(h.up /\ ~h.dead /\ h.op.name \in {"poll", "recv"} /\ h.pe = "rpend") THEN h
   ELSE
   LET h1 == IF h.K > 0 /\ ~h.overslept
-            THEN CheckKF(h, wake >= 0 /\ wake <= h.lastDone + h.K, "C10",
+            THEN CheckKF(Tick(h, "C10"), wake >= 0 /\ wake <= h.lastDone + h.K, "C10",
                          "client sleeps past the keep-alive without sending anything",
                          "D10", h.K < 5000 /\ h.pingAt >= 0)
             ELSE h
@@ -207,8 +214,10 @@ OutPublishQ0(h, d, pkt) ==
   THEN [h EXCEPT !.op.q0sent = TRUE]
   ELSE Viol(h, "C09", "QoS 0 PUBLISH on the wire differs from the pending request")
 
-OutRequest(h, d, pkt) ==
-  LET k == FindReq(h, d)
+OutRequest(h0, d, pkt) ==
+  LET h == Tick2(Tick(h0, IF d.t = PUBLISH THEN (IF d.q = 1 THEN "C02" ELSE "C03") ELSE "C05"), "C07",
+                 IF d.t = PUBLISH THEN "C06" ELSE "C05")
+      k == FindReq(h, d)
       kinds == IF d.t = PUBLISH THEN {"P1", "P2"} ELSE IF d.t = SUBSCRIBE THEN {"SUB"} ELSE {"UNS"}
       byid == ById(h, d.id, kinds)
       pp == IF d.t = PUBLISH THEN (IF d.q = 1 THEN "C02" ELSE "C03") ELSE "C05"
@@ -222,9 +231,10 @@ OutRequest(h, d, pkt) ==
   ELSE
   LET r == h.reqs[k]
       first == r.id = 0
+      hT == IF first THEN h ELSE Tick2(h, "C17", "C05")
       others == {j \in 1..Len(h.reqs) : j # k /\ InFlight(h, j) /\ h.reqs[j].id = d.id}
       cnt == IF r.sc = h.ci THEN r.n + 1 ELSE 1
-      h1 == IF r.st = "ref" THEN Viol(h, r.refp, "a locally refused request reached the wire") ELSE h
+      h1 == IF r.st = "ref" THEN Viol(hT, r.refp, "a locally refused request reached the wire") ELSE hT
       h2 == Check(h1, r.ep = h.epoch, "C05",
                   "request from before a fresh broker session was transmitted")
       h3 == CheckKF(h2, others = {}, "C07", "packet identifier already in use by another operation",
@@ -259,14 +269,16 @@ OutRequest(h, d, pkt) ==
                         !.reqs[k].sc = h.ci, !.reqs[k].n = cnt]
   IN IF d.t = PUBLISH THEN C06Check(h10, d.id, r.cc < h.ci) ELSE h10
 
-OutAck(h, d) ==
+OutAck(h0, d) ==
+  LET h == Tick(h0, "C04") IN
   IF h.aw < Len(h.owed)
      /\ h.owed[h.aw + 1].t = d.t /\ h.owed[h.aw + 1].id = d.id /\ h.owed[h.aw + 1].rc = d.rc
   THEN [h EXCEPT !.aw = @ + 1]
   ELSE Viol(h, "C04", "acknowledgement not owed, out of order, or with the wrong reason code")
 
-OutPubrel(h, d) ==
-  LET k == ById(h, d.id, {"P2"}) IN
+OutPubrel(h0, d) ==
+  LET h == Tick(h0, "C03")
+      k == ById(h, d.id, {"P2"}) IN
   IF k = 0 \/ h.reqs[k].ph # "rec"
   THEN Viol(h, "C03", "PUBREL without a successful PUBREC for an exchange in progress")
   ELSE LET r == h.reqs[k]
@@ -315,7 +327,7 @@ OnOut(h, pkt) ==
       \* D3: a replayed SUBSCRIBE / UNSUBSCRIBE carries flags 1010
       replayed == d.st = "ok" /\ d.t \in {SUBSCRIBE, UNSUBSCRIBE}
                   /\ LET k == FindReq(h, d) IN k # 0 /\ h.reqs[k].cc < h.ci
-      h0 == [h EXCEPT !.wn = @ + 1, !.lastout = (pkt[1] \div 16),
+      h0 == [Tick(Tick2(h, "C01", "C09"), "C14") EXCEPT !.wn = @ + 1, !.lastout = (pkt[1] \div 16),
                       !.sum.out = Append(@, << h.ci, ClearDup(pkt) >>),
                       !.pingOut = (pkt[1] \div 16 = PINGREQ)]
       h1 == CheckKF(h0, d0.st = "ok", "C01", "outbound packet is not a well-formed MQTT 5 client packet",
@@ -331,7 +343,7 @@ OnOut(h, pkt) ==
       \* C10: time between consecutive client packets while the application waits in poll
       h5 == C10Gap(h4)
   IN IF d.st # "ok" THEN h5
-     ELSE IF d.t = CONNECT THEN OutConnect(h5, d)
+     ELSE IF d.t = CONNECT THEN OutConnect([h5 EXCEPT !.connectLen = Len(pkt)], d)
      ELSE IF d.t = PUBLISH /\ d.q = 0 THEN OutPublishQ0(h5, d, pkt)
      ELSE IF d.t \in {PUBLISH, SUBSCRIBE, UNSUBSCRIBE} THEN OutRequest(h5, d, pkt)
      ELSE IF d.t \in {PUBACK, PUBREC, PUBCOMP} THEN OutAck(h5, d)
@@ -356,7 +368,8 @@ DrainOut(h) ==
 
 OwedAck(t, id, rc) == [t |-> t, id |-> id, rc |-> rc]
 
-InPublish(h, d) ==
+InPublish(h0, d) ==
+  LET h == Tick(h0, "C04") IN
   IF d.q = 0 THEN [h EXCEPT !.op.msg = d, !.op.hasmsg = TRUE]
   ELSE IF d.q = 1 THEN
     [h EXCEPT !.owed = Append(@, OwedAck(PUBACK, d.id, IF d.id \in h.sids THEN 145 ELSE 0)),
@@ -414,7 +427,7 @@ InConnack(h, d) ==
 
 OnIn(h, pkt) ==
   LET d == IF Len(pkt) > h.cfg.rx THEN Bad ELSE DecServer(pkt)
-      h0 == [h EXCEPT !.op.prog = TRUE, !.op.nin = @ + 1]
+      h0 == [Tick(h, "C08") EXCEPT !.op.prog = TRUE, !.op.nin = @ + 1]
   IN
   IF d.st = "bad" THEN [h0 EXCEPT !.op.bad = TRUE]
   ELSE IF d.st = "dc" THEN [h0 EXCEPT !.op.dc = TRUE]
@@ -469,9 +482,10 @@ TailHopeless(h) ==
 ---------------------------------------------------------------------------
 \* observations (status answers after every return, cancellation and drop)
 
-ObsChecks(h, obs) ==
-  LET h1 == IF h.up /\ h.dead
-            THEN Check(h, ~obs.live /\ obs.cp = << FALSE, FALSE, FALSE >>, "C11",
+ObsChecks(h0, obs) ==
+  LET h == IF Len(h0.hmap) > 0 THEN Tick(h0, "C18") ELSE h0
+      h1 == IF h.up /\ h.dead
+            THEN Check(Tick(h, "C11"), ~obs.live /\ obs.cp = << FALSE, FALSE, FALSE >>, "C11",
                        "a dead handle reports connected / able to publish")
             ELSE h
       \* C18: every handle tells the truth
@@ -537,15 +551,17 @@ OnlyAliasZero(o) ==
   /\ \E k \in 1..Len(o.e.props) : o.e.props[k].id = 35 /\ o.e.props[k].n = 0
   /\ ReqPropsOk(SelectSeq(WireProps(o.e), LAMBDA p : ~(p.id = 35 /\ p.n = 0)), PUBLISH)
 
-RetDead(h, e) ==
+RetDead(h0, e) ==
+  LET h == Tick(h0, "C11") IN
   \* a call on a handle that had already died: disconnected error (disconnect: Ok), no I/O
   LET okres == IF h.op.name = "disconnect" THEN e.r.k = "ok" ELSE e.r.k = "err" /\ e.r.v = "Disconnected"
       h1 == Check(h, okres, "C11", "call on a dead handle did not fail fast with the disconnected error")
   IN Check(h1, e.obs.io = h.op.io0, "C11", "call on a dead handle touched the transport")
 
-RetRequest(h, e) ==
+RetRequest(h0, e) ==
   \* publish (QoS > 0) / subscribe / unsubscribe
-  LET o == h.op  k == o.req  r == e.r
+  LET h == Tick(h0, "C19")
+      o == h.op  k == o.req  r == e.r
       inval == ArgsInvalid(o)
       h1 == IF r.k = "err" /\ r.v = "InvalidRequest"
             THEN Check(h, inval, "C19", "a request with legal arguments was refused as invalid")
@@ -567,8 +583,9 @@ RetRequest(h, e) ==
      IN [h2 EXCEPT !.reqs[k].st = "ref", !.reqs[k].refp = p]
   ELSE [h1 EXCEPT !.reqs[k].st = IF @ = "pend" THEN "unk" ELSE @]
 
-RetQ0(h, e) ==
-  LET o == h.op  r == e.r
+RetQ0(h0, e) ==
+  LET h == Tick(h0, "C19")
+      o == h.op  r == e.r
       inval == ArgsInvalid(o)
       h1 == IF r.k = "err" /\ r.v = "InvalidRequest"
             THEN Check(h, inval, "C19", "a request with legal arguments was refused as invalid")
@@ -578,7 +595,7 @@ RetQ0(h, e) ==
             ELSE h
       h2 == IF r.k = "err" /\ r.v \in Local /\ o.q0sent
             THEN Viol(h1, RefusalProperty(r.v), "a locally refused request reached the wire") ELSE h1
-      h3 == IF r.k = "ok" THEN Check(h2, o.q0sent, "C09", "QoS 0 publish returned Ok without sending the packet")
+      h3 == IF r.k = "ok" /\ h.taint = 0 THEN Check(h2, o.q0sent, "C09", "QoS 0 publish returned Ok without sending the packet")
             ELSE h2
   IN Check(h3, ~(r.k = "ok" /\ r.h >= 0), "C19", "QoS 0 publish returned an operation handle")
 
@@ -620,7 +637,7 @@ RetDrive(h, e) ==
             ELSE h4
       \* C16: Ok(None) only after real wire progress
       h6 == IF o.name = "poll" /\ r.k = "ok" /\ ~r.hasmsg
-            THEN Check(h5, o.prog, "C16", "poll returned without a message and without wire progress")
+            THEN Check(Tick(h5, "C16"), o.prog, "C16", "poll returned without a message and without wire progress")
             ELSE h5
       h7 == IF r.k = "err" /\ r.v = "InflightExhausted"
             THEN CheckKF(h6, FALSE, "C06", "a QoS 2 exchange was dropped because too many wait for PUBCOMP", "D6", TRUE)
@@ -644,8 +661,12 @@ RetConn(h, e) ==
       h4 == IF r.k = "err" /\ r.v = "InvalidPacket" /\ ~o.bad /\ ~o.dc /\ ~o.unexp /\ (a.have => a.propsok)
             THEN Check(h3, TailHopeless(h), "C08", "a valid inbound packet was rejected")
             ELSE h3
-      h5 == IF o.healthy
-            THEN Check(h4, r.k = "ok", "C12", "connect() over a healthy transport to a conformant broker failed")
+      \* C12: the director promised a healthy transport and a conformant, accepting broker
+      d9b == r.k = "err" /\ r.v = "BufferTooSmall" /\ e.obs.io = << 0, 0, 0 >> /\ h.connectLen > h.cfg.rx
+      h5 == IF o.healthy /\ ~o.fault /\ ~o.eof /\ (a.have => good)
+            THEN [CheckKF(Tick(h4, "C12"), r.k = "ok", "C12",
+                          "connect() over a healthy transport to a conformant broker failed", "D9b", d9b)
+                  EXCEPT !.d9b = @ \/ d9b]
             ELSE h4
       ok == r.k = "ok"
       K == IF a.ska >= 0 THEN a.ska * 1000 ELSE h.kaAdv * 1000
@@ -723,8 +744,9 @@ StepR(h, e) == DrainIn([IoOnDead(h) EXCEPT !.rtail = @ \o e.bytes])
 \* poll() until nothing is outstanding) everything accepted has completed
 StepDrainEnd(h, e) ==
   LET o == h.lastobs
-      h1 == Check(h, e.done, "C16", "benign continuation did not reach a quiescent session within the step bound")
-      h2 == Check(h1, \A i \in 1..Len(o.h) : o.h[i] # "p", "C16", "an operation is still pending after the benign continuation")
+      \* D9b makes the reconnect itself impossible; nothing can then complete
+      h1 == CheckKF(Tick(h, "C16"), e.done, "C16", "benign continuation did not reach a quiescent session within the step bound", "D9b", h.d9b)
+      h2 == CheckKF(h1, \A i \in 1..Len(o.h) : o.h[i] # "p", "C16", "an operation is still pending after the benign continuation", "D9b", h.d9b)
       h3 == Check(h2, h.owed = << >>, "C16", "an owed acknowledgement was never sent")
       stuck == {k \in 1..Len(h.reqs) : InFlight(h, k)}
       h4 == IF stuck # {} /\ e.done
@@ -761,12 +783,13 @@ Step(h0, e) ==
     [] e.e = "panic" -> Viol(h, "PANIC", "the client panicked")
     [] e.e = "watchdog" -> Viol(h, "C16", "run-away: I/O watchdog tripped (unbounded loop or re-sending)")
     [] e.e = "drainend" -> StepDrainEnd(h, e)
+    [] e.e = "end" -> IF PrintT("@STAT " \o ToJson([run |-> h.cfg.name, n |-> h.n])) THEN h ELSE h
     [] OTHER -> h
 
 ---------------------------------------------------------------------------
 \* the trace specification
 
-Init == H = Fresh(1, [client_id |-> << >>, ka |-> 0, rx |-> 0], EmptySum)
+Init == H = Fresh(1, [client_id |-> << >>, ka |-> 0, rx |-> 0, name |-> ""], EmptySum)
 
 Next ==
   /\ H.l <= Len(Rec)
